@@ -436,7 +436,7 @@ inline double horizon(const Geodesic& g, double a, double lat0, double lon0, dou
 }
 
 inline void generate(Rng& r, bool thorough) {
-  long n = thorough ? 300000 : 12000;
+  long n = thorough ? 100000 : 12000;
   auto H = [](double v) { return hx(v); };
   for (long i = 0; i < n; ++i) {
     Case c;
